@@ -11,6 +11,8 @@ import (
 	"errors"
 	"fmt"
 	"io"
+	"os"
+	"os/exec"
 	"regexp"
 	"sort"
 	"strconv"
@@ -160,6 +162,33 @@ func shadowRun(c *Case, cc *CallCfg, watchdog time.Duration) (J, string, bool) {
 	}
 }
 
+// storeInChild builds the GRL text in a child process and returns the stream that process stored.
+func storeInChild(grl string) ([]byte, error) {
+	self, err := os.Executable()
+	if err != nil {
+		return nil, err
+	}
+	cmd := exec.Command(self, "xproc-store")
+	cmd.Stdin = strings.NewReader(grl)
+	var out, errb bytes.Buffer
+	cmd.Stdout, cmd.Stderr = &out, &errb
+	if err := cmd.Run(); err != nil {
+		return nil, fmt.Errorf("%v: %s", err, errb.String())
+	}
+	return out.Bytes(), nil
+}
+
+// cmdXprocStore: GRL text on stdin, the stored knowledge base on stdout.
+func cmdXprocStore() {
+	grl, err := io.ReadAll(os.Stdin)
+	must(err)
+	lib := ast.NewKnowledgeLibrary()
+	must(builder.NewRuleBuilder(lib).BuildRuleFromResource("kb", "1", pkg.NewBytesResource(grl)))
+	var buf bytes.Buffer
+	must(lib.StoreKnowledgeBaseToWriter(&buf, "kb", "1"))
+	os.Stdout.Write(buf.Bytes())
+}
+
 func nestedRun(eng *engine.GruleEngine) {
 	nestMu.Lock()
 	kb, err := nestLib.NewKnowledgeBaseInstance("nest", "1")
@@ -261,7 +290,22 @@ func BuildInstance(c *Case) (*ast.KnowledgeBase, error) {
 	}
 	lib := ast.NewKnowledgeLibrary()
 	rb := builder.NewRuleBuilder(lib)
-	if c.Variant == "json" && c.JSONRules != "" {
+	if c.Variant == "xproc" && len(c.Parts) >= 2 {
+		// the first resource was built and stored by ANOTHER process (this binary, run as a child); this process loads the
+		// stream and builds the remaining resources into the same knowledge base
+		stream, err := storeInChild(c.Parts[0])
+		if err != nil {
+			return nil, fmt.Errorf("store (child process): %w", err)
+		}
+		if _, err := lib.LoadKnowledgeBaseFromReader(bytes.NewReader(stream), true); err != nil {
+			return nil, fmt.Errorf("load: %w", err)
+		}
+		for _, part := range c.Parts[1:] {
+			if err := rb.BuildRuleFromResource("kb", "1", pkg.NewBytesResource([]byte(part))); err != nil {
+				return nil, fmt.Errorf("build: %w", err)
+			}
+		}
+	} else if c.Variant == "json" && c.JSONRules != "" {
 		res, err := pkg.NewJSONResourceFromResource(pkg.NewBytesResource([]byte(c.JSONRules)))
 		if err != nil {
 			return nil, fmt.Errorf("build: JSON rule set: %w", err)
